@@ -42,7 +42,11 @@ func runC05(c *Ctx) {
 		txlifeRule(c, "C05.txlife", fn)
 	}
 	flushOrderRule(c, "C05.flushorder")
-	if n := orderRule(c, "C05.sorted", c.a.GetSchema); n < 2 {
+	nSorted := 0
+	for _, f := range c.scope(c.a.GetSchema, 2) {
+		nSorted += orderRule(c, "C05.sorted", f)
+	}
+	if n := nSorted; n < 2 {
 		c.r.undecided("C05.sorted", "<vacuity>", fmt.Sprintf("GetSchema fills %d slice(s) from maps; 2 (columns, values) were confirmed on the reference tree", n))
 	}
 	codecRule(c, "C05.codec")
@@ -187,6 +191,26 @@ func persistRule(c *Ctx, rule string, fn *ssa.Function) {
 					st.inst[call] = id // the serialised bytes stand for that instance
 				}
 				return false
+			}
+			// a helper that serialises one of its bitmap parameters into the data bucket on every successful path
+			if h := calleeFunc(&call.Call); h != nil && c.w.inModule(h) && h.Blocks != nil && (h.Signature.Recv() == nil || !typeIs(h.Signature.Recv().Type(), roaringPkg, "Bitmap")) {
+				for k, a := range call.Call.Args {
+					if k >= len(h.Params) || !typeIs(a.Type(), roaringPkg, "Bitmap") {
+						continue
+					}
+					r := st.resolve(a)
+					if isNilConst(r) {
+						continue
+					}
+					id := st.inst[r]
+					if id == 0 {
+						continue
+					}
+					if persistsParam(c, h, h.Params[k]) {
+						nPut++
+						delete(st.user, fmt.Sprintf("dirty:%d", id))
+					}
+				}
 			}
 			if calleeName(&call.Call) == boltPut {
 				val := st.resolve(call.Call.Args[2])
@@ -505,4 +529,38 @@ func sliceArray(v ssa.Value) ssa.Value {
 		return sl.X
 	}
 	return nil
+}
+
+// persistsParam: on every successful path, h writes the serialisation of its bitmap parameter p under a bitmap key.
+func persistsParam(c *Ctx, h *ssa.Function, p ssa.Value) bool {
+	isPut := func(i ssa.Instruction) bool {
+		call, ok := i.(*ssa.Call)
+		if !ok || calleeName(&call.Call) != boltPut || keyKind(c, call.Call.Args[1]) != "value" {
+			return false
+		}
+		e, ok := call.Call.Args[2].(*ssa.Extract)
+		if !ok || e.Index != 0 {
+			return false
+		}
+		tb, ok := e.Tuple.(*ssa.Call)
+		if !ok {
+			return false
+		}
+		n := calleeName(&tb.Call)
+		if !strings.HasSuffix(n, ".ToBytes") && !strings.HasSuffix(n, ".MarshalBinary") {
+			return false
+		}
+		return peel(tb.Call.Args[0]) == p
+	}
+	isOK := func(i ssa.Instruction) bool {
+		if isSuccessReturn(i) {
+			return true
+		}
+		// helpers without an error result: any return
+		if r, ok := i.(*ssa.Return); ok && len(r.Results) == 0 {
+			return true
+		}
+		return false
+	}
+	return c.fc.pathAvoiding(h, nil, isOK, isPut) == nil
 }
